@@ -169,6 +169,15 @@ def coerce(v, ty):
                 x = z3.simplify(z3.Select(v.ty.arr(v.t), i))
                 b = z3.Store(b, x, z3.Select(b, x) + 1)
             return V(ty, b)
+    if isinstance(ty, TList) and isinstance(v.ty, TList):
+        # [x] * n  (a constant list) at another element type, e.g. [None] * n where List[Optional[T]] is expected
+        arr = z3.simplify(v.ty.arr(v.t))
+        nn = z3.simplify(v.ty.n(v.t))
+        if z3.is_int_value(nn) and nn.as_long() == 0:
+            return V(ty, ty.mk(z3.K(z3.IntSort(), fresh('nil', ty.elem.sort())), z3.IntVal(0)))     # the empty list at any element type
+        if z3.is_K(arr):
+            elem = coerce(V(v.ty.elem, arr.arg(0)), ty.elem)
+            return V(ty, ty.mk(z3.K(z3.IntSort(), elem.t), z3.simplify(v.ty.n(v.t))))
     raise OutOfSubset(f'cannot coerce {v.ty} to {ty}')
 
 
